@@ -35,7 +35,7 @@ META = {
         "xsdata.codegen.parsers.schema:SchemaParser.from_string", "xsdata.codegen.resolver:DependenciesResolver.process",
     ],
     "bounds": [
-        "identifier kernel: names = sequences of <= 3 symbols over a 14-symbol class-representative alphabet (a B 1 _ - . space é ² class None type value 9x), every NameCase, default and two alternative safe prefixes",
+        "identifier kernel: names = sequences of <= 3 symbols over a 19-symbol class-representative alphabet (a B 1 _ - . space é ² class None type value 9x Class IN def_ any From), every NameCase, default and two alternative safe prefixes",
         "pipeline: hostile name triples from pools of ~22 (JSON keys via DictMapper; NCName-legal element / attribute / type names of a tiny XSD via SchemaParser+SchemaMapper), then the REAL ClassContainer.process() and Filters, "
         "for structure styles x compound fields x unnest as partitions",
         "selector driven: finite pools enumerated through the solver's forking; each path runs concretely",
@@ -50,7 +50,7 @@ from harness.common import known  # noqa: E402
 
 _KNOWN_ORIGINAL = known("C07-original-case-nonidentifier")
 _KNOWN_PREFIX = known("C07-safe-prefix-collision")
-ALPHA = ["a", "B", "1", "_", "-", ".", " ", "é", "²", "class", "None", "type", "value", "9x"]
+ALPHA = ["a", "B", "1", "_", "-", ".", " ", "é", "²", "class", "None", "type", "value", "9x", "Class", "IN", "def_", "any", "From"]
 PREFIXES = [("value", "type", "mod", "pkg"), ("x", "T", "m", "p"), ("class", "None", "type", "in")]
 
 
@@ -119,8 +119,8 @@ def _names_ok(name):
 
 
 # ----------------------------------------------------------------------------- pipeline
-JKEYS = ["", "a", "A", "a-b", "a_b", "aB", "Ab", "AB", "class", "None", "type", "value", "1x", "x1", "_", "é", "a.b", "a b", "-1", "!", "a_Element", "a_element", "A_Attribute"]
-XNAMES = ["a", "A", "a-b", "a_b", "aB", "AB", "class", "None", "type", "value", "x1", "_", "é", "a.b", "_1", "a_Element", "a_element", "A_Attribute", "Meta", "self", "Optional", "a.B"]
+JKEYS = ["", "a", "A", "a-b", "a_b", "aB", "Ab", "AB", "class", "None", "type", "value", "1x", "x1", "_", "é", "a.b", "a b", "-1", "!", "a_Element", "a_element", "A_Attribute", "Class", "IN", "item", "Item", "Item.1", "item_1", "none"]
+XNAMES = ["a", "A", "a-b", "a_b", "aB", "AB", "class", "None", "type", "value", "x1", "_", "é", "a.b", "_1", "a_Element", "a_element", "A_Attribute", "Meta", "self", "Optional", "a.B", "Class", "IN", "def_", "item", "Item", "Item.1", "item_1", "none", "any", "From"]
 STYLES = list(StructureStyle)
 
 
